@@ -46,6 +46,20 @@ fn own_det(m: &M) -> f64 {
 fn near_m(a: &M, b: &M, tol: f64) -> bool {
     (0..6).all(|i| (a[i] - b[i]).abs() <= tol)
 }
+/// linear part within `tl`, translation within `tt`
+fn near_m2(a: &M, b: &M, tl: f64, tt: f64) -> bool {
+    (0..4).all(|i| (a[i] - b[i]).abs() <= tl) && (4..6).all(|i| (a[i] - b[i]).abs() <= tt)
+}
+fn lin_max(m: &M) -> f64 {
+    m[..4].iter().fold(0.0f64, |a, b| a.max(b.abs()))
+}
+fn tr_max(m: &M) -> f64 {
+    m[4].abs().max(m[5].abs())
+}
+/// the length scale of a set of coordinates (never zero, so that tolerances stay relative)
+fn len_of(xs: &[f64]) -> f64 {
+    xs.iter().fold(f64::MIN_POSITIVE, |a, b| a.max(b.abs()))
+}
 fn near_p(a: Point, b: Point, tol: f64) -> bool {
     (a.x - b.x).abs() <= tol && (a.y - b.y).abs() <= tol
 }
@@ -81,9 +95,56 @@ fn ellipse_inner(e: &Ellipse) -> Vec<f64> {
 
 // ------------------------------------------------------------------ generators
 
+/// 2^k, exactly (|k| <= 1022)
+fn pow2(k: i64) -> f64 {
+    f64::from_bits(((1023 + k) as u64) << 52)
+}
+/// Magnitude diversity: in `num` cases out of `den` a power of two from 2^-kmax..2^kmax, else 1.
+/// Multiplying by a power of two is exact, so an input scaled this way has the same mantissas.
+fn sweep(r: &mut Rng, kmax: i64, num: u64, den: u64) -> f64 {
+    if r.chance(num, den) {
+        pow2(r.range_i(-kmax, kmax))
+    } else {
+        1.0
+    }
+}
+fn scale_tr(a: Affine, f: f64) -> Affine {
+    let c = co(a);
+    Affine::new([c[0], c[1], c[2], c[3], c[4] * f, c[5] * f])
+}
+fn scale_all(a: Affine, f: f64) -> Affine {
+    let c = co(a);
+    Affine::new([c[0] * f, c[1] * f, c[2] * f, c[3] * f, c[4] * f, c[5] * f])
+}
+fn scale_pt(p: Point, f: f64) -> Point {
+    Point::new(p.x * f, p.y * f)
+}
+fn scale_seg(s: PathSeg, f: f64) -> PathSeg {
+    match s {
+        PathSeg::Line(l) => PathSeg::Line(Line::new(scale_pt(l.p0, f), scale_pt(l.p1, f))),
+        PathSeg::Quad(q) => PathSeg::Quad(QuadBez::new(scale_pt(q.p0, f), scale_pt(q.p1, f), scale_pt(q.p2, f))),
+        PathSeg::Cubic(c) => PathSeg::Cubic(CubicBez::new(scale_pt(c.p0, f), scale_pt(c.p1, f), scale_pt(c.p2, f), scale_pt(c.p3, f))),
+    }
+}
+fn scale_el(e: PathEl, f: f64) -> PathEl {
+    match e {
+        PathEl::MoveTo(p) => PathEl::MoveTo(scale_pt(p, f)),
+        PathEl::LineTo(p) => PathEl::LineTo(scale_pt(p, f)),
+        PathEl::QuadTo(a, b) => PathEl::QuadTo(scale_pt(a, f), scale_pt(b, f)),
+        PathEl::CurveTo(a, b, c) => PathEl::CurveTo(scale_pt(a, f), scale_pt(b, f), scale_pt(c, f)),
+        PathEl::ClosePath => PathEl::ClosePath,
+    }
+}
+fn scale_arc(a: Arc, f: f64) -> Arc {
+    Arc::new(scale_pt(a.center, f), (a.radii.x * f, a.radii.y * f), a.start_angle, a.sweep_angle, a.x_rotation)
+}
+fn scale_rect(q: Rect, f: f64) -> Rect {
+    Rect::new(q.x0 * f, q.y0 * f, q.x1 * f, q.y1 * f)
+}
+
 /// any finite matrix: grids, structured families, singular ones, generic doubles
 fn gen_affine_any(r: &mut Rng) -> Affine {
-    match r.below(12) {
+    match r.below(13) {
         0 | 1 => Affine::new([r.grid(6, 2.0), r.grid(6, 2.0), r.grid(6, 2.0), r.grid(6, 2.0), r.grid(16, 2.0), r.grid(16, 2.0)]),
         2 => Affine::new([r.coord(), 0.0, 0.0, r.coord(), r.coord(), r.coord()]),
         3 => {
@@ -104,6 +165,11 @@ fn gen_affine_any(r: &mut Rng) -> Affine {
         7 => Affine::new([1.0, 0.0, 0.0, 1.0, r.coord(), r.coord()]),
         8 => *r.pick(&[Affine::IDENTITY, Affine::FLIP_X, Affine::FLIP_Y]),
         9 => Affine::new([r.generic(-20, 20), r.generic(-20, 20), r.generic(-20, 20), r.generic(-20, 20), r.generic(-20, 20), r.generic(-20, 20)]),
+        10 => {
+            // the whole matrix at an extreme magnitude (fourth powers, as in svd, stay finite)
+            let f = pow2(r.range_i(-200, 200));
+            scale_all(Affine::new([r.generic(-3, 3), r.generic(-3, 3), r.generic(-3, 3), r.generic(-3, 3), r.generic(-3, 6), r.generic(-3, 6)]), f)
+        }
         _ => Affine::new([r.generic(-3, 3), r.generic(-3, 3), r.generic(-3, 3), r.generic(-3, 3), r.generic(-3, 6), r.generic(-3, 6)]),
     }
 }
@@ -154,7 +220,8 @@ fn gen_ts(r: &mut Rng) -> TranslateScale {
         4 => -r.generic(-3, 3).abs(),
         _ => r.generic(-3, 3),
     };
-    TranslateScale::new(Vec2::new(r.coord(), r.coord()), s)
+    let (fs, ft) = (sweep(r, 200, 1, 6), sweep(r, 200, 1, 6));
+    TranslateScale::new(Vec2::new(r.coord() * ft, r.coord() * ft), s * fs)
 }
 fn gen_ts_reg(r: &mut Rng) -> TranslateScale {
     let s = match r.below(4) {
@@ -286,7 +353,8 @@ fn scale_tag(s: f64) -> &'static str {
 
 /// the ellipse of an image is well away from a circle and its rotation from the branch cut of atan2
 fn well_conditioned_ellipse(radii: Vec2, rot: f64) -> bool {
-    radii.x.is_finite() && radii.y > 1e-3 && (radii.x - radii.y) > 0.1 * radii.x && rot.abs() < FRAC_PI_2 - 0.02
+    // (the minor radius loses eps * aspect^2 to cancellation in svd: keep that far below the tolerance)
+    radii.x.is_finite() && radii.y > 1e-3 && radii.x < 200.0 * radii.y && (radii.x - radii.y) > 0.1 * radii.x && rot.abs() < FRAC_PI_2 - 0.02
 }
 
 // ------------------------------------------------------------------ correspondence
@@ -298,7 +366,9 @@ fn corr(r: &mut Rng, thorough: bool, o: &mut Out) {
         let a = gen_affine_any(r);
         let b = gen_affine_any(r);
         let (ma, mb) = (co(a), co(b));
-        let p = gen_point(r);
+        // magnitude diversity of the geometry: one case in six has every length at 2^k
+        let fl = sweep(r, 200, 1, 6);
+        let p = scale_pt(gen_point(r), fl);
         let ident = |m: &M| *m == [1.0, 0.0, 0.0, 1.0, 0.0, 0.0];
         o.case(1, "mul", cat(&[&ma, &mb]), co(a * b).to_vec(), !ident(&ma) && !ident(&mb), det_tag(a));
         o.case(2, "apply", cat(&[&ma, &pv(p)]), pv(a * p), !ident(&ma), det_tag(a));
@@ -306,8 +376,8 @@ fn corr(r: &mut Rng, thorough: bool, o: &mut Out) {
         o.case(4, "inverse", ma.to_vec(), co(a.inverse()).to_vec(), a.determinant() != 0.0, det_tag(a));
         let s = r.coord();
         let (sx, sy) = (r.coord(), r.coord());
-        let t = Vec2::new(r.coord(), r.coord());
-        let c = gen_point(r);
+        let t = Vec2::new(r.coord() * fl, r.coord() * fl);
+        let c = scale_pt(gen_point(r), fl);
         o.case(5, "pre_scale", cat(&[&ma, &[s]]), co(a.pre_scale(s)).to_vec(), s != 1.0, "");
         o.case(6, "pre_scale_non_uniform", cat(&[&ma, &[sx, sy]]), co(a.pre_scale_non_uniform(sx, sy)).to_vec(), sx != sy, "");
         o.case(7, "pre_translate", cat(&[&ma, &[t.x, t.y]]), co(a.pre_translate(t)).to_vec(), t != Vec2::ZERO, "");
@@ -316,7 +386,7 @@ fn corr(r: &mut Rng, thorough: bool, o: &mut Out) {
         o.case(10, "then_translate", cat(&[&ma, &[t.x, t.y]]), co(a.then_translate(t)).to_vec(), t != Vec2::ZERO, "");
         o.case(11, "then_scale_about", cat(&[&ma, &[s], &pv(c)]), co(a.then_scale_about(s, c)).to_vec(), s != 1.0 && c != Point::ZERO, "");
         o.case(12, "scale_about", cat(&[&[s], &pv(c)]), co(Affine::scale_about(s, c)).to_vec(), s != 1.0 && c != Point::ZERO, "");
-        let rc = gen_rect(r);
+        let rc = scale_rect(gen_rect(r), fl);
         o.case(13, "map_unit_square", enc_rect(&rc), co(Affine::map_unit_square(rc)).to_vec(), rc.width() != rc.height(), "");
         let bb = a.transform_rect_bbox(rc);
         let corner = |p: Point| (p.x == bb.x0 || p.x == bb.x1) && (p.y == bb.y0 || p.y == bb.y1);
@@ -328,7 +398,7 @@ fn corr(r: &mut Rng, thorough: bool, o: &mut Out) {
             cons.extend_from_slice(&co(m));
         }
         o.case(16, "constructors", vec![s, sx, sy, t.x, t.y, sx, sy], cons, true, "");
-        let sg = gen_seg(r);
+        let sg = scale_seg(gen_seg(r), fl);
         o.case(17, "affine*seg", cat(&[&ma, &enc_seg(&sg)]), enc_seg(&(a * sg)), !ident(&ma), seg_kind(&sg));
         // the concrete curve types agree with the PathSeg dispatch
         let conc = match sg {
@@ -337,7 +407,7 @@ fn corr(r: &mut Rng, thorough: bool, o: &mut Out) {
             PathSeg::Cubic(c) => PathSeg::Cubic(a * c),
         };
         o.case(17, "affine*curve", cat(&[&ma, &enc_seg(&sg)]), enc_seg(&conc), !ident(&ma), seg_kind(&sg));
-        let els = gen_path(r);
+        let els: Vec<PathEl> = gen_path(r).into_iter().map(|e| scale_el(e, fl)).collect();
         let bp = BezPath::from_vec(els.clone());
         let tag = format!("els={}", els.len().min(9));
         o.case(18, "affine*path", cat(&[&ma, &enc_els(&els)]), enc_els((a * &bp).elements()), els.len() > 1, &tag);
@@ -370,7 +440,7 @@ fn corr(r: &mut Rng, thorough: bool, o: &mut Out) {
         ev.extend(ellipse_inner(&e.with_center(c)));
         ev.extend(pv(e.center()));
         o.case(21, "ellipse-translate", cat(&[&ma, &[t.x, t.y], &pv(c)]), ev, t != Vec2::ZERO, "");
-        let rad = if r.chance(1, 5) { -r.coord().abs() } else { r.coord().abs() };
+        let rad = if r.chance(1, 5) { -r.coord().abs() * fl } else { r.coord().abs() * fl };
         o.case(22, "affine*circle", cat(&[&ma, &pv(c), &[rad]]), ellipse_inner(&(a * Circle::new(c, rad))), rad != 0.0, if rad < 0.0 { "radius<0" } else { "radius>=0" });
         let mut tv = vec![a.translation().x, a.translation().y];
         tv.extend_from_slice(&co(a.with_translation(t)));
@@ -448,22 +518,34 @@ fn corr(r: &mut Rng, thorough: bool, o: &mut Out) {
         o.case(if as_then { 64 } else { 53 }, "pre_rotate_about", cat(&[&ma, &[th], &pv(c)]), co(pra).to_vec(), true, if as_then { "T*self (pinned)" } else { "self*T" });
         o.case(54, "then_rotate", cat(&[&ma, &[th]]), co(a.then_rotate(th)).to_vec(), true, "");
         o.case(55, "then_rotate_about", cat(&[&ma, &[th], &pv(c)]), co(a.then_rotate_about(th, c)).to_vec(), true, "");
-        let d = Vec2::new(r.generic(-3, 3), r.generic(-3, 3));
-        o.case(56, "reflect", cat(&[&pv(c), &[d.x, d.y]]), co(Affine::reflect(c, d)).to_vec(), true, "");
-        let (rad, rot) = Ellipse::from_affine(a).radii_and_rotation();
-        if well_conditioned_ellipse(rad, rot) {
-            o.case(57, "svd-angle", ma.to_vec(), vec![rot], true, "");
+        // reflect depends on the direction of its axis only: the magnitude is swept over the whole
+        // exponent range (the model's hypot rescales as libm's does)
+        let fd = sweep(r, 1000, 1, 2);
+        let d = Vec2::new(r.generic(-3, 3) * fd, r.generic(-3, 3) * fd);
+        let fc = sweep(r, 40, 1, 3);
+        let cr = scale_pt(c, fc);
+        o.case(56, "reflect", cat(&[&pv(cr), &[d.x, d.y]]), co(Affine::reflect(cr, d)).to_vec(), true, if fd == 1.0 { "|dir|~1" } else if fd < 1.0 { "|dir| tiny" } else { "|dir| huge" });
+        // svd: the rotation does not depend on the magnitude of the matrix
+        let fm = sweep(r, 200, 1, 3);
+        let am = scale_all(a, fm);
+        let (rad, rot) = Ellipse::from_affine(am).radii_and_rotation();
+        if well_conditioned_ellipse(Vec2::new(rad.x / fm, rad.y / fm), rot) {
+            o.case(57, "svd-angle", co(am).to_vec(), vec![rot], true, if fm == 1.0 { "|M|~1" } else { "|M| swept" });
         }
-        let arc = gen_arc(r);
+        // lengths of the arc / ellipse cases: centre, radii and the map's translation at 2^k
+        let fl = sweep(r, 40, 1, 3);
+        let a = scale_tr(a, fl);
+        let ma = co(a);
+        let arc = scale_arc(gen_arc(r), fl);
         let el = Ellipse::new(arc.center, arc.radii, arc.x_rotation);
         let (erad, erot) = el.radii_and_rotation();
-        if well_conditioned_ellipse(erad, erot) {
+        if well_conditioned_ellipse(Vec2::new(erad.x / fl, erad.y / fl), erot) {
             let mut ev = ellipse_inner(&el);
             ev.extend([erad.x, erad.y, erot]);
             o.case(58, "ellipse-new", vec![arc.center.x, arc.center.y, arc.radii.x, arc.radii.y, arc.x_rotation], ev, true, "");
         }
         let im = a * arc;
-        if well_conditioned_ellipse(im.radii, im.x_rotation) {
+        if well_conditioned_ellipse(Vec2::new(im.radii.x / fl, im.radii.y / fl), im.x_rotation) {
             let in_range = arc.x_rotation > -FRAC_PI_2 && arc.x_rotation <= FRAC_PI_2;
             let tag = format!("{},{}", det_tag(a), if in_range { "x_rotation in (-pi/2,pi/2]" } else { "x_rotation outside" });
             let args = cat(&[&ma, &enc_arc(&arc)]);
@@ -490,6 +572,11 @@ fn g_abc(r: &mut Rng) -> Vec<f64> {
         v.extend_from_slice(&co(gen_affine_reg(r)));
     }
     v.extend(pv(Point::new(r.uniform(-50.0, 50.0), r.uniform(-50.0, 50.0))));
+    // all lengths (translations, the point) at 2^k
+    let fl = sweep(r, 40, 1, 3);
+    for i in [4, 5, 10, 11, 16, 17, 18, 19] {
+        v[i] *= fl;
+    }
     v
 }
 
@@ -498,10 +585,11 @@ fn law_product(a: &[f64]) -> Option<(String, String)> {
     let (ma, mb, mc) = (dec_aff(&a[0..6]), dec_aff(&a[6..12]), dec_aff(&a[12..18]));
     let p = Point::new(a[18], a[19]);
     let (ca, cb, cc) = (co(ma), co(mb), co(mc));
-    let sc = (1.0 + mmax(&ca)) * (1.0 + mmax(&cb)) * (1.0 + mmax(&cc)) * (1.0 + p.x.abs().max(p.y.abs()));
-    let tol = 64.0 * EPS * sc;
+    // tolerances: dimensionless for linear coefficients, relative to the length scale for translations and points
+    let tl = 64.0 * EPS * (1.0 + lin_max(&ca)) * (1.0 + lin_max(&cb)) * (1.0 + lin_max(&cc));
+    let tol = tl * len_of(&[tr_max(&ca), tr_max(&cb), tr_max(&cc), p.x, p.y]);
     let ab = ma * mb;
-    if !near_m(&co(ab), &own_mul(&ca, &cb), tol) {
+    if !near_m2(&co(ab), &own_mul(&ca, &cb), tl, tol) {
         return fail("product:matrix", format!("{:?} * {:?} = {:?}, documented product {:?}", ma, mb, ab, own_mul(&ca, &cb)));
     }
     if !near_p(ma * p, own_apply(&ca, p), tol) {
@@ -512,16 +600,16 @@ fn law_product(a: &[f64]) -> Option<(String, String)> {
         return fail("product:assoc-point", format!("(A*B)*p = {:?} but A*(B*p) = {:?} for A={:?} B={:?} p={:?}", l, rr, ma, mb, p));
     }
     let (l, rr) = (co((ma * mb) * mc), co(ma * (mb * mc)));
-    if !near_m(&l, &rr, tol) {
+    if !near_m2(&l, &rr, tl, tol) {
         return fail("product:assoc", format!("(A*B)*C = {:?} but A*(B*C) = {:?}", l, rr));
     }
     let (d1, d2) = (ab.determinant(), ma.determinant() * mb.determinant());
-    let dsc = (1.0 + mmax(&ca)).powi(2) * (1.0 + mmax(&cb)).powi(2);
+    let dsc = (1.0 + lin_max(&ca)).powi(2) * (1.0 + lin_max(&cb)).powi(2);
     if (d1 - d2).abs() > 64.0 * EPS * dsc || (ma.determinant() - own_det(&ca)).abs() > 8.0 * EPS * dsc {
         return fail("product:determinant", format!("det(A*B) = {} but det A * det B = {} for A={:?} B={:?}", d1, d2, ma, mb));
     }
     // f64 * Affine scales every coefficient
-    let k = a[18];
+    let k = a[0] - 0.25;
     let ka = co(k * ma);
     for i in 0..6 {
         if (ka[i] - k * ca[i]).abs() > 4.0 * EPS * (k * ca[i]).abs() {
@@ -539,6 +627,10 @@ fn law_product(a: &[f64]) -> Option<(String, String)> {
 fn g_a_p(r: &mut Rng) -> Vec<f64> {
     let mut v = co(gen_affine_reg(r)).to_vec();
     v.extend(pv(Point::new(r.uniform(-50.0, 50.0), r.uniform(-50.0, 50.0))));
+    let fl = sweep(r, 40, 1, 3);
+    for i in [4, 5, 6, 7] {
+        v[i] *= fl;
+    }
     v
 }
 
@@ -551,16 +643,17 @@ fn law_inverse(a: &[f64]) -> Option<(String, String)> {
     let ci = co(inv);
     let id: M = [1.0, 0.0, 0.0, 1.0, 0.0, 0.0];
     // forward error of the products: |A| |A^-1| eps
-    let tol = 64.0 * EPS * (1.0 + mmax(&c)) * (1.0 + mmax(&ci));
+    let tol = 64.0 * EPS * (1.0 + lin_max(&c)) * (1.0 + lin_max(&ci));
+    let len = len_of(&[tr_max(&c), tr_max(&ci), p.x, p.y]);
     let (r1, r2) = (co(m * inv), co(inv * m));
-    if !near_m(&r1, &id, tol) {
+    if !near_m2(&r1, &id, tol, tol * len) {
         return fail("inverse:right", format!("A * inverse(A) = {:?} for A = {:?}", r1, m));
     }
-    if !near_m(&r2, &id, tol) {
+    if !near_m2(&r2, &id, tol, tol * len) {
         return fail("inverse:left", format!("inverse(A) * A = {:?} for A = {:?}", r2, m));
     }
     let back = inv * (m * p);
-    if !near_p(back, p, tol * (1.0 + p.x.abs().max(p.y.abs()))) {
+    if !near_p(back, p, tol * len) {
         return fail("inverse:point", format!("inverse(A) * (A * p) = {:?} for p = {:?}, A = {:?}", back, p, m));
     }
     let (d, di) = (m.determinant(), inv.determinant());
@@ -580,6 +673,10 @@ fn g_pre_then(r: &mut Rng) -> Vec<f64> {
     v.push(r.uniform(-30.0, 30.0)); // ty
     v.push(r.uniform(-30.0, 30.0)); // cx
     v.push(r.uniform(-30.0, 30.0)); // cy
+    let fl = sweep(r, 40, 1, 3);
+    for i in [4, 5, 10, 11, 12, 13] {
+        v[i] *= fl;
+    }
     v
 }
 
@@ -599,8 +696,8 @@ fn law_pre_then(a: &[f64]) -> Option<(String, String)> {
     let trans: M = [1.0, 0.0, 0.0, 1.0, tx, ty];
     let c = Point::new(cx, cy);
     let t = Vec2::new(tx, ty);
-    let big = (1.0 + mmax(&cm)) * (1.0 + cx.abs().max(cy.abs()).max(tx.abs()).max(ty.abs())) * (1.0 + s.abs().max(sx.abs()).max(sy.abs()));
-    let tol = 64.0 * EPS * big;
+    let tl = 64.0 * EPS * (1.0 + lin_max(&cm)) * (1.0 + s.abs().max(sx.abs()).max(sy.abs()));
+    let tol = tl * len_of(&[tr_max(&cm), cx, cy, tx, ty]);
     let checks: Vec<(&str, M, M)> = vec![
         ("pre_rotate", co(m.pre_rotate(th)), own_mul(&cm, &rot)),
         ("pre_rotate_about", co(m.pre_rotate_about(th, c)), own_mul(&cm, &rot_about)),
@@ -622,7 +719,7 @@ fn law_pre_then(a: &[f64]) -> Option<(String, String)> {
         ("skew", co(Affine::skew(sx, sy)), [1.0, sy, sx, 1.0, 0.0, 0.0]),
     ];
     for (name, got, want) in checks {
-        if !near_m(&got, &want, tol) {
+        if !near_m2(&got, &want, tl, tol) {
             let how = if name.starts_with("pre_") { "self * T" } else if name.starts_with("then_") { "T * self" } else { "the documented matrix" };
             return fail(&format!("pre_then:{}", name), format!("{} of {:?} (th={} s={} sx={} sy={} t=({},{}) c=({},{})) = {:?}, but {} = {:?}", name, m, th, s, sx, sy, tx, ty, cx, cy, got, how, want));
         }
@@ -634,15 +731,16 @@ fn g_about(r: &mut Rng) -> Vec<f64> {
     let mut v = vec![r.uniform(-4.0, 4.0), r.uniform(-7.0, 7.0)];
     v.extend(pv(Point::new(r.uniform(-30.0, 30.0), r.uniform(-30.0, 30.0)))); // centre / axis point
     v.extend(pv(Point::new(r.uniform(-30.0, 30.0), r.uniform(-30.0, 30.0)))); // p
-    loop {
-        let d = Vec2::new(r.generic(-4, 4), r.generic(-4, 4));
-        if d.hypot() > 1e-3 {
-            v.push(d.x);
-            v.push(d.y);
-            break;
-        }
-    }
+    // only the direction of reflect's axis matters: its magnitude is swept over the exponent range
+    let fd = sweep(r, 1000, 1, 2);
+    v.push(r.generic(-4, 4) * fd);
+    v.push(r.generic(-4, 4) * fd);
     v.push(r.uniform(-3.0, 3.0)); // t
+    // centre and point at 2^k
+    let fl = sweep(r, 40, 1, 3);
+    for i in 2..6 {
+        v[i] *= fl;
+    }
     v
 }
 
@@ -653,7 +751,8 @@ fn law_about(a: &[f64]) -> Option<(String, String)> {
     let p = Point::new(a[4], a[5]);
     let d = Vec2::new(a[6], a[7]);
     let t = a[8];
-    let sc = 1.0 + c.x.abs().max(c.y.abs()).max(p.x.abs()).max(p.y.abs());
+    // all tolerances are relative to the length scale of the inputs
+    let sc = f64::MIN_POSITIVE.max(c.x.abs()).max(c.y.abs()).max(p.x.abs()).max(p.y.abs());
     let tol = 64.0 * EPS * sc * (1.0 + s.abs());
     let sa = Affine::scale_about(s, c);
     if !near_p(sa * c, c, tol) {
@@ -675,22 +774,36 @@ fn law_about(a: &[f64]) -> Option<(String, String)> {
     if (ra.determinant() - 1.0).abs() > 16.0 * EPS || (sa.determinant() - s * s).abs() > 16.0 * EPS * (1.0 + s * s) {
         return fail("about:determinant", format!("det rotate_about = {}, det scale_about({}) = {}", ra.determinant(), s, sa.determinant()));
     }
-    // reflection about the line c + t d
+    // reflection about the line through c with direction d (any finite non-zero magnitude):
+    // the unit direction, computed here by rescaling first so that nothing under- or overflows
     let rf = Affine::reflect(c, d);
-    let dl = d.hypot();
-    let on = Point::new(c.x + t * d.x, c.y + t * d.y);
-    let rtol = 256.0 * EPS * (sc + t.abs() * dl);
+    let big = d.x.abs().max(d.y.abs());
+    let (ex, ey) = (d.x / big, d.y / big);
+    let el = (ex * ex + ey * ey).sqrt();
+    let (ux, uy) = (ex / el, ey / el);
+    let on = Point::new(c.x + t * sc * ux, c.y + t * sc * uy);
+    let rtol = 256.0 * EPS * sc * (1.0 + t.abs());
+    let crf = co(rf);
+    if !crf.iter().all(|x| x.is_finite()) {
+        return fail("about:reflect-finite", format!("reflect({:?}, {:?}) = {:?}", c, d, rf));
+    }
     if !near_p(rf * on, on, rtol) {
         return fail("about:reflect-axis", format!("reflect({:?}, {:?}) moves the axis point {:?} to {:?}", c, d, on, rf * on));
     }
-    let nrm = Vec2::new(d.y / dl, -d.x / dl);
+    let nrm = Vec2::new(uy, -ux);
     let k = (p.x - c.x) * nrm.x + (p.y - c.y) * nrm.y;
     let want = Point::new(p.x - 2.0 * k * nrm.x, p.y - 2.0 * k * nrm.y);
     if !near_p(rf * p, want, rtol) {
         return fail("about:reflect-mirror", format!("reflect({:?}, {:?}) * {:?} = {:?}, mirror image {:?}", c, d, p, rf * p, want));
     }
+    // the linear part is the Householder matrix of the unit normal, whatever the magnitude of d
+    let hh = [1.0 - 2.0 * nrm.x * nrm.x, -2.0 * nrm.x * nrm.y, -2.0 * nrm.x * nrm.y, 1.0 - 2.0 * nrm.y * nrm.y];
+    if (0..4).any(|i| (crf[i] - hh[i]).abs() > 64.0 * EPS) {
+        return fail("about:reflect-matrix", format!("reflect({:?}, {:?}) has linear part {:?}, the reflection in that direction is {:?}", c, d, &crf[..4], hh));
+    }
     let twice = co(rf * rf);
-    if !near_m(&twice, &[1.0, 0.0, 0.0, 1.0, 0.0, 0.0], rtol) {
+    let id: M = [1.0, 0.0, 0.0, 1.0, 0.0, 0.0];
+    if (0..4).any(|i| (twice[i] - id[i]).abs() > 256.0 * EPS) || twice[4].abs() > rtol || twice[5].abs() > rtol {
         return fail("about:reflect-involution", format!("reflect({:?}, {:?}) squared = {:?}", c, d, twice));
     }
     if (rf.determinant() + 1.0).abs() > 64.0 * EPS {
@@ -707,7 +820,10 @@ fn g_a_seg_t(r: &mut Rng) -> Vec<f64> {
         2 => 0.5,
         _ => r.unit(),
     });
-    v.extend(enc_seg(&gen_seg(r)));
+    let fl = sweep(r, 40, 1, 3);
+    v[4] *= fl;
+    v[5] *= fl;
+    v.extend(enc_seg(&scale_seg(gen_seg(r), fl)));
     v
 }
 
@@ -717,8 +833,8 @@ fn law_commute_eval(a: &[f64]) -> Option<(String, String)> {
     let t = a[6];
     let (s, _) = dec_seg(&a[7..]);
     let cb = s.to_cubic();
-    let sc = [cb.p0, cb.p1, cb.p2, cb.p3].iter().fold(1.0f64, |x, p| x.max(p.x.abs()).max(p.y.abs()));
-    let tol = 128.0 * EPS * (1.0 + mmax(&co(m))) * sc;
+    let sc = [cb.p0, cb.p1, cb.p2, cb.p3].iter().fold(len_of(&[tr_max(&co(m))]), |x, p| x.max(p.x.abs()).max(p.y.abs()));
+    let tol = 128.0 * EPS * (1.0 + lin_max(&co(m))) * sc;
     let k = seg_kind(&s);
     let im = m * s;
     let (l, rr) = (im.eval(t), m * s.eval(t));
@@ -742,8 +858,10 @@ fn law_commute_eval(a: &[f64]) -> Option<(String, String)> {
 }
 
 fn g_a_path(r: &mut Rng) -> Vec<f64> {
-    let mut v = co(gen_affine_reg(r)).to_vec();
-    v.extend(enc_els(&gen_path(r)));
+    let fl = sweep(r, 40, 1, 3);
+    let mut v = co(scale_tr(gen_affine_reg(r), fl)).to_vec();
+    let els: Vec<PathEl> = gen_path(r).into_iter().map(|e| scale_el(e, fl)).collect();
+    v.extend(enc_els(&els));
     v
 }
 
@@ -795,6 +913,11 @@ fn g_ellipse(r: &mut Rng) -> Vec<f64> {
     v.push(r.uniform(0.1, 10.0)); // ry
     v.push(r.uniform(-7.0, 7.0)); // rotation
     v.push(r.uniform(-7.0, 7.0)); // theta
+    // lengths: both translations, the centre, the radii
+    let fl = sweep(r, 40, 1, 3);
+    for i in [4, 5, 10, 11, 12, 13, 14, 15] {
+        v[i] *= fl;
+    }
     v
 }
 
@@ -828,11 +951,13 @@ fn law_ellipse(a: &[f64]) -> Option<(String, String)> {
     if !(ang > -FRAC_PI_2 - 1e-12 && ang <= FRAC_PI_2 + 1e-12) {
         return fail("ellipse:svd-angle-range", format!("svd angle {} of {:?}", ang, m));
     }
-    let etol = |rad: Vec2| 1e-9 + 1e-12 * (rad.x / rad.y).powi(2);
+    // implicit-equation defect allowed: svd conditioning, plus the cancellation in (point - centre) when the
+    // centre is far away compared with the minor radius
+    let etol = |rad: Vec2, ctr: Point| 1e-9 + 1e-12 * (rad.x / rad.y).powi(2) + 64.0 * EPS * (ctr.x.abs().max(ctr.y.abs()) / rad.y) * (rad.x / rad.y);
     // the unit circle's image under m is the ellipse (centre, radii, angle)
     let e0 = Ellipse::from_affine(m);
     let d = on_ellipse(e0.center(), rad, ang, m * Point::new(cs, sn));
-    if !(d <= etol(rad)) {
+    if !(d <= etol(rad, e0.center())) {
         return fail("ellipse:from_affine-decomposition", format!("image of the unit circle point at {} is off the ellipse (centre {:?}, radii {:?}, rotation {}) by {}; map {:?}", th, e0.center(), rad, ang, d, m));
     }
     // A * circle
@@ -841,11 +966,11 @@ fn law_ellipse(a: &[f64]) -> Option<(String, String)> {
     let (r1, a1) = e1.radii_and_rotation();
     let q = m * Point::new(c.x + rx * cs, c.y + rx * sn);
     let d = on_ellipse(e1.center(), r1, a1, q);
-    if !(d <= etol(r1)) || !near_p(e1.center(), m * c, 64.0 * EPS * (1.0 + mmax(&cm)) * (1.0 + c.x.abs().max(c.y.abs()))) {
+    if !(d <= etol(r1, e1.center())) || !near_p(e1.center(), m * c, 64.0 * EPS * (1.0 + lin_max(&cm)) * len_of(&[tr_max(&cm), c.x, c.y])) {
         return fail("ellipse:circle-image", format!("A*circle: image point {:?} is off the ellipse (centre {:?}, radii {:?}, rotation {}) by {}; A={:?} circle={:?}", q, e1.center(), r1, a1, d, m, circle));
     }
     let (ar, want) = (e1.area(), det.abs() * PI * rx * rx);
-    if (ar - want).abs() > 1e-9 * want.max(1.0) * aspect2.sqrt().max(1.0) {
+    if (ar - want).abs() > 1e-9 * want * aspect2.sqrt().max(1.0) {
         return fail("ellipse:circle-image-area", format!("area of A*circle = {}, |det| pi r^2 = {}", ar, want));
     }
     // Ellipse::new(c, (rx, ry), rot) is the curve c + R(rot) (rx cos, ry sin); and its image under A
@@ -854,7 +979,7 @@ fn law_ellipse(a: &[f64]) -> Option<(String, String)> {
     let on2 = Point::new(c.x + crot * rx * cs - srot * ry * sn, c.y + srot * rx * cs + crot * ry * sn);
     let (r2, a2) = e2.radii_and_rotation();
     let d = on_ellipse(e2.center(), r2, a2, on2);
-    if !(d <= etol(r2)) || !near_p(e2.center(), c, 0.0) {
+    if !(d <= etol(r2, e2.center())) || !near_p(e2.center(), c, 0.0) {
         return fail("ellipse:new", format!("Ellipse::new({:?}, ({}, {}), {}): point at {} is off the reported ellipse (radii {:?}, rotation {}) by {}", c, rx, ry, rot, th, r2, a2, d));
     }
     let (big, small) = (rx.max(ry), rx.min(ry));
@@ -862,7 +987,7 @@ fn law_ellipse(a: &[f64]) -> Option<(String, String)> {
         return fail("ellipse:new-radii", format!("Ellipse::new with radii ({}, {}) reports {:?}", rx, ry, r2));
     }
     // Ellipse +/- Vec2 and with_center move the centre and nothing else
-    let v = Vec2::new(rot * 3.0, th - 1.0);
+    let v = Vec2::new(rot * 3.0 * rx, (th - 1.0) * rx);
     let base = ellipse_inner(&e2);
     for (name, got, cx, cy) in [("add", e2 + v, base[4] + v.x, base[5] + v.y), ("sub", e2 - v, base[4] - v.x, base[5] - v.y), ("with_center", e2.with_center(v.to_point()), v.x, v.y)] {
         let g = ellipse_inner(&got);
@@ -873,7 +998,7 @@ fn law_ellipse(a: &[f64]) -> Option<(String, String)> {
     let e3 = m * e2;
     let (r3, a3) = e3.radii_and_rotation();
     let d = on_ellipse(e3.center(), r3, a3, m * on2);
-    if !(d <= etol(r3)) {
+    if !(d <= etol(r3, e3.center())) {
         return fail("ellipse:image", format!("A*ellipse: image point {:?} is off the ellipse (centre {:?}, radii {:?}, rotation {}) by {}", m * on2, e3.center(), r3, a3, d));
     }
     // the outline of the image shape: every knot, pulled back by the inverse map, lies on the original ellipse
@@ -886,7 +1011,7 @@ fn law_ellipse(a: &[f64]) -> Option<(String, String)> {
             let (u, v) = (back.x - c.x, back.y - c.y);
             let (lu, lv) = (crot * u + srot * v, -srot * u + crot * v);
             let d = ((lu / rx).powi(2) + (lv / ry).powi(2) - 1.0).abs();
-            let cond = (1.0 + mmax(&cm)) * (1.0 + mmax(&co(inv))) * (big / small).powi(2);
+            let cond = (1.0 + lin_max(&cm)) * (1.0 + lin_max(&co(inv))) * (big / small).powi(2) * (1.0 + len_of(&[tr_max(&cm), c.x, c.y]) / small);
             if !(d <= 1e-9 + 1e-12 * (r3.x / r3.y).powi(2) + 1e-13 * cond) {
                 return fail("ellipse:image-outline", format!("outline knot {:?} of A*ellipse pulls back to {:?}, off the original ellipse by {}; A={:?} ellipse: centre {:?} radii ({}, {}) rotation {}", q, back, d, m, c, rx, ry, rot));
             }
@@ -912,7 +1037,10 @@ fn g_arc(r: &mut Rng) -> Vec<f64> {
         2 => arc.x_rotation = *r.pick(&[0.0, FRAC_PI_2, -FRAC_PI_2, PI, -PI, 2.0 * PI]),
         _ => {}
     }
-    v.extend(enc_arc(&arc));
+    let fl = sweep(r, 40, 1, 3);
+    v[4] *= fl;
+    v[5] *= fl;
+    v.extend(enc_arc(&scale_arc(arc, fl)));
     v.push(match r.below(4) {
         0 => 0.0,
         1 => 1.0,
@@ -938,7 +1066,7 @@ fn law_arc(a: &[f64]) -> Option<(String, String)> {
     let im = m * arc;
     let cm = co(m);
     let aspect2 = (im.radii.x / im.radii.y).powi(2);
-    let sc = (1.0 + mmax(&cm)) * (1.0 + arc.center.x.abs().max(arc.center.y.abs()) + arc.radii.x.max(arc.radii.y));
+    let sc = (1.0 + lin_max(&cm)) * len_of(&[tr_max(&cm), arc.center.x, arc.center.y, arc.radii.x, arc.radii.y]);
     let tol = sc * (1e-9 + 1e-12 * aspect2);
     // the ellipse carrying the image arc
     if !near_p(im.center, m * arc.center, 64.0 * EPS * sc) {
@@ -946,7 +1074,7 @@ fn law_arc(a: &[f64]) -> Option<(String, String)> {
     }
     let q = m * arc_point(&arc, t);
     let d = on_ellipse(im.center, im.radii, im.x_rotation, q);
-    if !(d <= 1e-9 + 1e-12 * aspect2) {
+    if !(d <= 1e-9 + 1e-12 * aspect2 + 64.0 * EPS * (im.center.x.abs().max(im.center.y.abs()) / im.radii.y) * aspect2.sqrt()) {
         return fail("arc-image:ellipse", format!("image point {:?} is off the image arc's ellipse (centre {:?}, radii {:?}, rotation {}) by {}; A={:?} arc={:?}", q, im.center, im.radii, im.x_rotation, d, m, arc));
     }
     // the same parameter gives the image point
@@ -982,6 +1110,11 @@ fn g_ts(r: &mut Rng) -> Vec<f64> {
     v.push(r.uniform(0.0, 10.0)); // circle radius
     v.push(r.uniform(-7.0, 7.0)); // theta
     v.extend(enc_seg(&gen_seg(r)));
+    // lengths: translations, point, rectangles, radii, circle radius, control points
+    let fl = sweep(r, 40, 1, 3);
+    for i in (0..v.len()).filter(|i| ![2, 5, 21, 22].contains(i)) {
+        v[i] *= fl;
+    }
     v
 }
 
@@ -1027,7 +1160,7 @@ fn law_ts(a: &[f64]) -> Option<(String, String)> {
     if !near_m(&idm, &[1.0, 0.0, 0.0, 1.0, 0.0, 0.0], 16.0 * EPS * (1.0 + mmax(&co(af))) * (1.0 + mmax(&i2))) {
         return fail("ts:inverse-product", format!("{:?} * inverse = {:?}", ts, idm));
     }
-    let k = rad - 3.0;
+    let k = th;
     if co(Affine::from(k * ts)) != co(Affine::scale(k) * af) || co(Affine::from(ts + ts2.translation)) != co(af.then_translate(ts2.translation)) || co(Affine::from(ts2.translation + ts)) != co(af.then_translate(ts2.translation)) {
         return fail("ts:scalar-or-translate", format!("{} * {:?}, {:?} + {:?}", k, ts, ts, ts2.translation));
     }
@@ -1043,7 +1176,8 @@ fn law_ts(a: &[f64]) -> Option<(String, String)> {
         return fail("ts:assign-ops", format!("*=, +=, -= on {:?} with {:?}", ts, ts2));
     }
     let fsa = TranslateScale::from_scale_about(s, p);
-    if !near_p(fsa * p, p, 16.0 * EPS * (1.0 + s.abs()) * (1.0 + p.x.abs().max(p.y.abs()))) || !near_m(&co(Affine::from(fsa)), &co(Affine::scale_about(s, p)), 16.0 * EPS * (1.0 + s.abs()) * (1.0 + p.x.abs().max(p.y.abs()))) {
+    let ftol = 16.0 * EPS * (1.0 + s.abs()) * len_of(&[p.x, p.y]);
+    if !near_p(fsa * p, p, ftol) || !near_m2(&co(Affine::from(fsa)), &co(Affine::scale_about(s, p)), 0.0, ftol) {
         return fail("ts:from_scale_about", format!("from_scale_about({}, {:?}) = {:?}", s, p, fsa));
     }
     // rectangles: the image rectangle (normalised), i.e. the bounding box of the affine image
@@ -1056,13 +1190,13 @@ fn law_ts(a: &[f64]) -> Option<(String, String)> {
     let (sn, cs) = th.sin_cos();
     let onc = Point::new(ci.center.x + ci.radius * cs, ci.center.y + ci.radius * sn);
     let want = af * Point::new(p.x + rad * cs, p.y + rad * sn);
-    let ctol = 64.0 * EPS * (1.0 + s.abs()) * (1.0 + p.x.abs().max(p.y.abs()) + rad) + 64.0 * EPS * ts.translation.x.abs().max(ts.translation.y.abs());
+    let ctol = 64.0 * EPS * (1.0 + s.abs()) * len_of(&[p.x, p.y, rad, ts.translation.x, ts.translation.y]);
     if ci.center != af * p || !near_p(onc, want, ctol) {
         return fail("ts:circle", format!("{:?} * Circle({:?}, {}) = {:?}: point at {} is {:?}, affine image {:?}", ts, p, rad, ci, th, onc, want));
     }
     let el = af * Circle::new(p, rad);
     let er = el.radii();
-    if (er.x - ci.radius.abs()).abs() > 1e-9 * (1.0 + ci.radius.abs()) || !near_p(el.center(), ci.center, ctol) {
+    if (er.x - ci.radius.abs()).abs() > 1e-9 * ci.radius.abs() || !near_p(el.center(), ci.center, ctol) {
         return fail("ts:circle-vs-ellipse", format!("{:?} * circle has radius {}, the affine image has radii {:?}", ts, ci.radius, er));
     }
     // rounded rectangles: the rectangle is the image; each corner takes its radius to its image corner
@@ -1075,7 +1209,7 @@ fn law_ts(a: &[f64]) -> Option<(String, String)> {
     // a point is in the image shape iff its pre-image is in the shape: probes in the corner squares
     if w.width() > 0.0 && w.height() > 0.0 && s != 0.0 {
         let rmax = [rr.radii().top_left, rr.radii().top_right, rr.radii().bottom_right, rr.radii().bottom_left].iter().fold(0.0f64, |a, b| a.max(*b));
-        let m = 1e-9 * (1.0 + q.x0.abs().max(q.x1.abs()).max(q.y0.abs()).max(q.y1.abs()));
+        let m = 1e-9 * len_of(&[q.x0, q.x1, q.y0, q.y1]);
         for (cp, sx, sy) in [(Point::new(q.x0, q.y0), 1.0, 1.0), (Point::new(q.x1, q.y0), -1.0, 1.0), (Point::new(q.x1, q.y1), -1.0, -1.0), (Point::new(q.x0, q.y1), 1.0, -1.0)] {
             for (fu, fv) in [(0.05, 0.05), (0.15, 0.15), (0.3, 0.1), (0.1, 0.3), (0.25, 0.25), (0.6, 0.6)] {
                 let probe = Point::new(cp.x + sx * fu * rmax, cp.y + sy * fv * rmax);
@@ -1139,7 +1273,10 @@ fn rr_inside(rr: &RoundedRect, p: Point, m: f64) -> Option<bool> {
 
 fn g_rect(r: &mut Rng) -> Vec<f64> {
     let mut v = co(gen_affine_reg(r)).to_vec();
-    v.extend(enc_rect(&gen_rect(r)));
+    let fl = sweep(r, 40, 1, 3);
+    v[4] *= fl;
+    v[5] *= fl;
+    v.extend(enc_rect(&scale_rect(gen_rect(r), fl)));
     v.push(r.unit());
     v.push(r.unit());
     v
@@ -1164,7 +1301,7 @@ fn law_rect(a: &[f64]) -> Option<(String, String)> {
         return fail("rect:transform_rect_bbox", format!("{:?}.transform_rect_bbox({:?}) = {:?}, the corners' images span ({}, {}, {}, {})", m, rect, bb, x0, y0, x1, y1));
     }
     let inside = m * Point::new(rect.x0 + u * (rect.x1 - rect.x0), rect.y0 + v * (rect.y1 - rect.y0));
-    let tol = 16.0 * EPS * (1.0 + mmax(&co(m))) * (1.0 + rect.x0.abs().max(rect.x1.abs()).max(rect.y0.abs()).max(rect.y1.abs()));
+    let tol = 16.0 * EPS * (1.0 + lin_max(&co(m))) * len_of(&[tr_max(&co(m)), rect.x0, rect.x1, rect.y0, rect.y1]);
     if inside.x < bb.x0 - tol || inside.x > bb.x1 + tol || inside.y < bb.y0 - tol || inside.y > bb.y1 + tol {
         return fail("rect:transform_rect_bbox-contains", format!("image {:?} of a point of {:?} lies outside {:?}", inside, rect, bb));
     }
@@ -1177,8 +1314,12 @@ fn law_rect(a: &[f64]) -> Option<(String, String)> {
 }
 
 fn g_ts_path(r: &mut Rng) -> Vec<f64> {
+    let fl = sweep(r, 40, 1, 3);
     let mut v = enc_ts(&gen_ts_reg(r));
-    v.extend(enc_els(&gen_path(r)));
+    v[0] *= fl;
+    v[1] *= fl;
+    let els: Vec<PathEl> = gen_path(r).into_iter().map(|e| scale_el(e, fl)).collect();
+    v.extend(enc_els(&els));
     v
 }
 
@@ -1199,6 +1340,166 @@ fn law_ts_path(a: &[f64]) -> Option<(String, String)> {
     None
 }
 
+fn g_sweep(r: &mut Rng) -> Vec<f64> {
+    let nz = |r: &mut Rng, kmax: i64| loop {
+        let k = r.range_i(-kmax, kmax);
+        if k != 0 {
+            return k as f64;
+        }
+    };
+    let mut v = vec![nz(r, 40), nz(r, 1000), nz(r, 200)];
+    v.extend_from_slice(&co(gen_affine_reg(r))); // 3..9
+    v.extend_from_slice(&co(gen_affine_reg(r))); // 9..15
+    v.extend(pv(Point::new(r.uniform(-50.0, 50.0), r.uniform(-50.0, 50.0)))); // p 15,16
+    v.extend(pv(Point::new(r.uniform(-30.0, 30.0), r.uniform(-30.0, 30.0)))); // c 17,18
+    v.push(r.generic(-3, 3)); // d 19,20
+    v.push(r.generic(-3, 3));
+    v.push(r.uniform(-7.0, 7.0)); // th 21
+    v.push(r.uniform(-4.0, 4.0)); // s 22
+    v.extend(enc_arc(&gen_arc(r))); // 23..30
+    v.extend(enc_ts(&gen_ts_reg(r))); // 30..33
+    v.extend(enc_ts(&gen_ts_reg(r))); // 33..36
+    v.extend(enc_rect(&gen_rect(r))); // 36..40
+    let rr = gen_rrect(r);
+    v.extend(enc_rect(&rr.rect())); // 40..44
+    v.extend(enc_radii(&rr.radii())); // 44..48
+    v.push(r.uniform(0.1, 10.0)); // circle radius 48
+    v.extend(enc_seg(&gen_seg(r)));
+    v.extend(enc_els(&gen_path(r)));
+    v
+}
+
+/// `got` must be `base` with every entry multiplied by `f` (a power of two: exact unless something
+/// under- or overflows), up to `tol` relative to the largest entry
+fn covariant(got: &[f64], base: &[f64], f: f64, tol: f64) -> bool {
+    let n = base.iter().fold(0.0f64, |a, b| a.max(b.abs())) * f;
+    got.len() == base.len() && got.iter().zip(base).all(|(g, b)| (g - b * f).abs() <= tol * n || (g.is_nan() && b.is_nan()))
+}
+
+/// Scale sweep. Every operation of the property is homogeneous: multiplying all lengths (points,
+/// centres, radii, translations) by 2^k multiplies the lengths of the result by 2^k and leaves its
+/// dimensionless parts (linear coefficients, angles) alone; the magnitude of reflect's axis direction
+/// and of the matrix handed to the svd does not affect directions at all. The reference is the same
+/// operation at k = 0, which the other laws check against independent formulas.
+fn law_sweep(a: &[f64]) -> Option<(String, String)> {
+    let (f, fd, fm) = (pow2(a[0] as i64), pow2(a[1] as i64), pow2(a[2] as i64));
+    let (ma, mb) = (dec_aff(&a[3..9]), dec_aff(&a[9..15]));
+    let (p, c) = (Point::new(a[15], a[16]), Point::new(a[17], a[18]));
+    let d = Vec2::new(a[19], a[20]);
+    let (th, s) = (a[21], a[22]);
+    let arc = dec_arc(&a[23..30]);
+    let (ts, ts2) = (dec_ts(&a[30..33]), dec_ts(&a[33..36]));
+    let rect = Rect::new(a[36], a[37], a[38], a[39]);
+    let rr = RoundedRect::from_rect(Rect::new(a[40], a[41], a[42], a[43]), RoundedRectRadii::new(a[44], a[45], a[46], a[47]));
+    let rad = a[48];
+    let (seg, rest) = dec_seg(&a[49..]);
+    let els = dec_els(rest);
+    let (maf, mbf, pf, cf) = (scale_tr(ma, f), scale_tr(mb, f), scale_pt(p, f), scale_pt(c, f));
+    let tol = 8.0 * EPS;
+    // an affine result: linear part unchanged, translation times f
+    let aff_cov = |got: Affine, base: Affine| covariant(&co(got)[..4], &co(base)[..4], 1.0, tol) && covariant(&co(got)[4..], &co(base)[4..], f, tol);
+    let bad = |op: &str, got: String, base: String| fail(&format!("scale-sweep:{}", op), format!("{} with all lengths times 2^{} = {}, but at the original scale it is {} (A={:?} B={:?} p={:?} c={:?})", op, a[0], got, base, ma, mb, p, c));
+    macro_rules! chk_aff {
+        ($op:expr, $got:expr, $base:expr) => {
+            let (g, b): (Affine, Affine) = ($got, $base);
+            if !aff_cov(g, b) {
+                return bad($op, format!("{:?}", g), format!("{:?}", b));
+            }
+        };
+    }
+    if !covariant(&pv(maf * pf), &pv(ma * p), f, tol) {
+        return bad("apply", format!("{:?}", maf * pf), format!("{:?}", ma * p));
+    }
+    let t = p.to_vec2();
+    let tf = pf.to_vec2();
+    chk_aff!("mul", maf * mbf, ma * mb);
+    chk_aff!("inverse", maf.inverse(), ma.inverse());
+    chk_aff!("pre_translate", maf.pre_translate(tf), ma.pre_translate(t));
+    chk_aff!("then_translate", maf.then_translate(tf), ma.then_translate(t));
+    chk_aff!("pre_rotate", maf.pre_rotate(th), ma.pre_rotate(th));
+    chk_aff!("then_rotate", maf.then_rotate(th), ma.then_rotate(th));
+    chk_aff!("pre_rotate_about", maf.pre_rotate_about(th, cf), ma.pre_rotate_about(th, c));
+    chk_aff!("then_rotate_about", maf.then_rotate_about(th, cf), ma.then_rotate_about(th, c));
+    chk_aff!("pre_scale", maf.pre_scale(s), ma.pre_scale(s));
+    chk_aff!("then_scale", maf.then_scale(s), ma.then_scale(s));
+    chk_aff!("then_scale_about", maf.then_scale_about(s, cf), ma.then_scale_about(s, c));
+    chk_aff!("scale_about", Affine::scale_about(s, cf), Affine::scale_about(s, c));
+    chk_aff!("rotate_about", Affine::rotate_about(th, cf), Affine::rotate_about(th, c));
+    chk_aff!("translate", Affine::translate(tf), Affine::translate(t));
+    // reflect: the axis direction at any magnitude, the axis point at 2^k
+    let rbase = Affine::reflect(c, d);
+    for dd in [Vec2::new(d.x * fd, d.y * fd), Vec2::new(d.x / fd, d.y / fd)] {
+        let g = Affine::reflect(cf, dd);
+        if !(covariant(&co(g)[..4], &co(rbase)[..4], 1.0, 64.0 * EPS) && (0..2).all(|i| (co(g)[4 + i] - co(rbase)[4 + i] * f).abs() <= 256.0 * EPS * f * c.x.abs().max(c.y.abs()))) {
+            return fail("scale-sweep:reflect", format!("reflect({:?}, {:?}) = {:?}, but reflect({:?}, {:?}) = {:?}: the map must not depend on the magnitude of the direction", cf, dd, g, c, d, rbase));
+        }
+    }
+    // curves and paths
+    let (sf, elf): (PathSeg, Vec<PathEl>) = (scale_seg(seg, f), els.iter().map(|e| scale_el(*e, f)).collect());
+    if !covariant(&enc_seg(&(maf * sf))[1..], &enc_seg(&(ma * seg))[1..], f, tol) {
+        return bad("affine*seg", format!("{:?}", maf * sf), format!("{:?}", ma * seg));
+    }
+    let (pg, pb) = (maf * &BezPath::from_vec(elf.clone()), ma * &BezPath::from_vec(els.clone()));
+    for (g, b) in pg.elements().iter().zip(pb.elements()) {
+        if scale_el(*b, f) != *g && !covariant(&enc_els(&[*g])[1..], &enc_els(&[*b])[1..], f, tol) {
+            return bad("affine*path", format!("{:?}", g), format!("{:?}", b));
+        }
+    }
+    // ellipses and arcs: centre and radii are lengths, rotations and angles are not
+    let shape = |e: &Ellipse| {
+        let (r, rot) = e.radii_and_rotation();
+        (vec![e.center().x, e.center().y], vec![r.x, r.y], rot)
+    };
+    let ell_cov = |g: &Ellipse, b: &Ellipse, fl: f64| {
+        let ((gc, gr, ga), (bc, br, ba)) = (shape(g), shape(b));
+        (covariant(&gc, &bc, fl, tol) || fl != f) && covariant(&gr, &br, fl, 64.0 * EPS) && (ga - ba).abs() <= 1e-12
+    };
+    let (e_b, e_g) = (ma * Ellipse::new(c, arc.radii, arc.x_rotation), maf * Ellipse::new(cf, (arc.radii.x * f, arc.radii.y * f), arc.x_rotation));
+    if !ell_cov(&e_g, &e_b, f) {
+        return bad("affine*ellipse", format!("{:?}", shape(&e_g)), format!("{:?}", shape(&e_b)));
+    }
+    let (c_b, c_g) = (ma * Circle::new(c, rad), maf * Circle::new(cf, rad * f));
+    if !ell_cov(&c_g, &c_b, f) {
+        return bad("affine*circle", format!("{:?}", shape(&c_g)), format!("{:?}", shape(&c_b)));
+    }
+    // the svd of a matrix at another magnitude: radii scale, the rotation stays
+    let (s_b, s_g) = (Ellipse::from_affine(ma), Ellipse::from_affine(scale_all(ma, fm)));
+    if !ell_cov(&s_g, &s_b, fm) {
+        return fail("scale-sweep:svd", format!("radii and rotation of {:?} are {:?}; of the same matrix times 2^{} they are {:?}", ma, shape(&s_b), a[2], shape(&s_g)));
+    }
+    let (a_b, a_g) = (ma * arc, maf * scale_arc(arc, f));
+    let lens = |x: &Arc| vec![x.center.x, x.center.y];
+    if !(covariant(&lens(&a_g), &lens(&a_b), f, tol) && covariant(&[a_g.radii.x, a_g.radii.y], &[a_b.radii.x, a_b.radii.y], f, 64.0 * EPS) && (a_g.start_angle - a_b.start_angle).abs() <= 1e-12 && a_g.sweep_angle == a_b.sweep_angle && (a_g.x_rotation - a_b.x_rotation).abs() <= 1e-12) {
+        return bad("affine*arc", format!("{:?}", a_g), format!("{:?}", a_b));
+    }
+    // TranslateScale
+    let tsc = |x: TranslateScale| TranslateScale::new(Vec2::new(x.translation.x * f, x.translation.y * f), x.scale);
+    let ts_cov = |g: TranslateScale, b: TranslateScale| covariant(&[g.translation.x, g.translation.y], &[b.translation.x, b.translation.y], f, tol) && g.scale == b.scale;
+    let (tsf, ts2f) = (tsc(ts), tsc(ts2));
+    if !covariant(&pv(tsf * pf), &pv(ts * p), f, tol) || !ts_cov(tsf * ts2f, ts * ts2) || !ts_cov(tsf.inverse(), ts.inverse()) || !ts_cov(TranslateScale::from_scale_about(s, pf), TranslateScale::from_scale_about(s, p)) || !aff_cov(Affine::from(tsf), Affine::from(ts)) {
+        return bad("translate-scale", format!("{:?} {:?} {:?}", tsf * pf, tsf * ts2f, tsf.inverse()), format!("{:?} {:?} {:?}", ts * p, ts * ts2, ts.inverse()));
+    }
+    let (rf_, rrf) = (scale_rect(rect, f), RoundedRect::from_rect(scale_rect(rr.rect(), f), RoundedRectRadii::new(rr.radii().top_left * f, rr.radii().top_right * f, rr.radii().bottom_right * f, rr.radii().bottom_left * f)));
+    if !covariant(&enc_rect(&(tsf * rf_)), &enc_rect(&(ts * rect)), f, tol) || !covariant(&enc_rect(&maf.transform_rect_bbox(rf_)), &enc_rect(&ma.transform_rect_bbox(rect)), f, tol) || !covariant(&co(Affine::map_unit_square(rf_)), &co(Affine::map_unit_square(rect)), f, tol) {
+        return bad("rect", format!("{:?} {:?}", tsf * rf_, maf.transform_rect_bbox(rf_)), format!("{:?} {:?}", ts * rect, ma.transform_rect_bbox(rect)));
+    }
+    let (ig, ib) = (tsf * rrf, ts * rr);
+    if !covariant(&enc_rect(&ig.rect()), &enc_rect(&ib.rect()), f, tol) || !covariant(&enc_radii(&ig.radii()), &enc_radii(&ib.radii()), f, tol) {
+        return bad("ts*rounded-rect", format!("{:?}", ig), format!("{:?}", ib));
+    }
+    let (cg, cb) = (tsf * Circle::new(pf, rad * f), ts * Circle::new(p, rad));
+    if !covariant(&[cg.center.x, cg.center.y], &[cb.center.x, cb.center.y], f, tol) || !covariant(&[cg.radius], &[cb.radius], f, tol) {
+        return bad("ts*circle", format!("{:?}", cg), format!("{:?}", cb));
+    }
+    if !covariant(&enc_seg(&(tsf * sf))[1..], &enc_seg(&(ts * seg))[1..], f, tol) {
+        return bad("ts*seg", format!("{:?}", tsf * sf), format!("{:?}", ts * seg));
+    }
+    None
+}
+
+fn lim_sweep(a: &[f64]) -> Option<(String, String)> {
+    limited(law_sweep(a))
+}
 fn lim_product(a: &[f64]) -> Option<(String, String)> {
     limited(law_product(a))
 }
@@ -1246,6 +1547,7 @@ fn laws() -> Vec<Law> {
         Law { name: "translate_scale", gen: g_ts, check: lim_ts, weight: 3 },
         Law { name: "translate_scale_path", gen: g_ts_path, check: lim_ts_path, weight: 1 },
         Law { name: "rect", gen: g_rect, check: lim_rect, weight: 1 },
+        Law { name: "scale_sweep", gen: g_sweep, check: lim_sweep, weight: 3 },
     ]
 }
 
@@ -1297,6 +1599,17 @@ fn extra(_r: &mut Rng, thorough: bool, o: &mut Out) {
     }
     o.notes.push(format!("exact sweep: {} integer matrices, 8 methods each", n));
 
+    // reflect depends on the axis direction only: (3,4) at every power of two (hypot is exactly 5 * 2^j)
+    let want: M = [-0.28, 0.96, 0.96, 0.28, 1.28, -0.96];
+    for j in -1000..=1000 {
+        let f = pow2(j);
+        let got = co(Affine::reflect((1.0, 0.0), (3.0 * f, 4.0 * f)));
+        o.oracle_eval("reflect_direction_sweep");
+        if !near_m(&got, &want, 16.0 * EPS) {
+            o.violation("about:reflect-direction-magnitude", format!("reflect((1,0), 2^{} * (3,4)) = {:?}, want {:?} for every magnitude of the direction", j, got, want), format!("{{\"law\":\"about\",\"args\":{}}}", crate::util::fmt_fs(&[1.0, 0.0, 1.0, 0.0, 2.0, 1.0, 3.0 * f, 4.0 * f, 0.5])));
+            break;
+        }
+    }
     // quarter turns about integer centres: rotate_about's coefficients are within rounding of integers
     for q in 0..4 {
         let th = q as f64 * FRAC_PI_2;
